@@ -39,7 +39,7 @@ ASSUMPTIONS = [
 
 
 def strategy(tier):
-    return struct.histories(viewers=False, residents=True, inc_ok=True,
+    return struct.histories(viewers=False, residents=True, inc_ok=True, replace_ok=True,
                             max_ticks=6 if tier == 'quick' else 10,
                             step_op_ok=True)
 
